@@ -364,6 +364,85 @@ def is_number_token(tok):
     return re.fullmatch(r"[-+]?(\d+\.?\d*|\.\d+)([eE][-+]?\d+)?", tok) is not None
 
 
+# ---- the same path converted again in one process ---------------------------------------------------------------------------------
+# "Converting a document yields …" holds for EVERY conversion, not only for the first one of a process: a path that is converted again
+# must carry what the document stored under that path says at that moment, whatever happened in between — nothing, the caller edited
+# the tree it got from the earlier conversion in place (`tree.ndata[k] -= …`, the ordinary way to post-process a result), or the file
+# was rewritten with another document (of another length, or of the very same length with its time stamp preserved, `cp -p`).
+EDITS = ["translate", "to-origin", "scale-r", "zero", "retype", "reparent", "reverse", "set-one"]
+AGAIN_BETWEEN = ["nothing"] + EDITS + ["rewritten", "rewritten-same-stat"]
+
+
+def apply_edit(nd, edit, seed):
+    """edits the columns `nd` (dict of numpy arrays: a tree's `ndata`) IN PLACE the way a caller post-processes a result"""
+    import random
+    r = random.Random(seed)
+    if edit == "translate":
+        for k in "xyz":
+            nd[k] += np.float32(r.choice([-1, 1]) * r.randint(1, 4000) / 4)
+    elif edit == "to-origin":
+        for k in "xyz":
+            nd[k] -= nd[k][0]
+    elif edit == "scale-r":
+        nd["r"] *= np.float32(r.choice([0.5, 2, 10, 0.25]))
+    elif edit == "zero":
+        for k in r.sample("xyzr", r.randint(1, 4)):
+            nd[k][...] = 0
+    elif edit == "retype":
+        nd["type"][...] = 5 - nd["type"]
+    elif edit == "reparent":
+        nd["pid"][1:] = 0
+    elif edit == "reverse":
+        for k in "xyzr":
+            nd[k][...] = nd[k][::-1].copy()
+    elif edit == "set-one":
+        nd[r.choice("xyzr")][r.randrange(len(nd["x"]))] = np.float32(r.randint(-999, 999) / 8)
+    else:
+        raise AssertionError(edit)
+
+
+def columns_of(rows):
+    """the table the property states for `rows`, as the columns of a tree (to try an edit on)"""
+    nd = {k: np.array([float(Fraction(v[j])) for _, v, _ in rows], dtype=np.float32) for j, k in enumerate("xyzr")}
+    nd["type"] = np.array([ty for ty, _, _ in rows], dtype=np.int32)
+    nd["pid"] = np.array([pid for _, _, pid in rows], dtype=np.int32)
+    nd["id"] = np.arange(len(rows), dtype=np.int32)
+    return nd
+
+
+def edit_changes(rows, edit, seed):
+    a, b = columns_of(rows), columns_of(rows)
+    apply_edit(b, edit, seed)
+    return any(a[k].tolist() != b[k].tolist() for k in a)
+
+
+def same_length_variant(rng, doc):
+    """another document whose plain rendering has exactly the same length: one digit of some of the points is another digit"""
+    import copy
+    label, branch, col = copy.deepcopy(doc)
+    pts = []
+
+    def collect(b):
+        pts.extend(b[0])
+        for a in b[1] or []:
+            collect(a)
+
+    collect(branch)
+    for p in rng.sample(pts, max(1, len(pts) // 2)):
+        j = rng.choice([k for k in range(4) if "e" not in p[k].lower()] or [None])
+        if j is None:
+            continue
+        i = rng.choice([i for i, c in enumerate(p[j]) if c.isdigit()])
+        p[j] = p[j][:i] + rng.choice([c for c in "123456789" if c != p[j][i]]) + p[j][i + 1:]
+    return (label, branch, col)
+
+
+def table_of(t):
+    n = t.number_of_nodes()
+    return {"n": n, "id": t.id().tolist(), "pid": t.pid().tolist(), "type": t.type().tolist(),
+            "xyzr": np.stack([t.x(), t.y(), t.z(), t.r()], axis=1).astype(float).tolist() if n else []}
+
+
 class Convert(Suite):
     name = "c15.convert"
 
@@ -554,32 +633,76 @@ class Convert(Suite):
                 text, kl = "\n".join(lines_), "badpoint/eol"
             out.append({"class": kl, "text": text, "rows": None, "via": rng.choice(FILE_VIAS), "eol": rng.choice(["crlf", "mixed"]),
                         "eol_seed": rng.randrange(1 << 30)})
+        # the same path converted again in one process: after nothing / after the caller edited the earlier result in place / after the
+        # file was rewritten; every pair of file entry points, every kind of "in between" in turn (guaranteed share in the quick tier)
+        entry = ["convert", "file"]                       # the two entry points that take a path; "open" = the caller opens the file
+        for k in range(66 if big else 22):
+            between = AGAIN_BETWEEN[k % len(AGAIN_BETWEEN)]
+            # first round: both conversions through an entry point that takes the path; later rounds: any pair of the three
+            first_via, via = (rng.choice(entry), rng.choice(entry)) if k < len(AGAIN_BETWEEN) else (rng.choice(FILE_VIAS), rng.choice(FILE_VIAS))
+            c = {"via": via, "first_via": first_via, "between": between, "edit_seed": rng.randrange(1 << 30), "eol": rng.choice(["lf", "lf", "crlf"])}
+            while True:
+                d = doc()
+                rows = expected_rows(d)
+                if between in EDITS and not (len(rows) >= 2 and edit_changes(rows, between, c["edit_seed"])):
+                    continue
+                if between.startswith("rewritten"):
+                    d0 = same_length_variant(rng, d) if between == "rewritten-same-stat" else doc()
+                    if expected_rows(d0) == rows:
+                        continue
+                    plain = between == "rewritten-same-stat"
+                    c["text_before"] = render(rng, d0, layout=False)[0] if plain else render_lines(rng, d0)
+                    c["rows_before"] = _ser(expected_rows(d0))
+                    text = render(rng, d, layout=False)[0] if plain else render_lines(rng, d)
+                else:
+                    text = render_lines(rng, d) if rng.random() < 0.7 else render(rng, d)[0]
+                break
+            c.update({"class": f"again/{between}/{first_via}-{via}", "text": text, "rows": _ser(rows)})
+            out.append(c)
         return out
 
     def run(self, case):
         from swcgeom.transforms import NeurolucidaAscToSwc
+
+        def through(via, fn):
+            if via == "convert":
+                return NeurolucidaAscToSwc.convert(fn)
+            if via == "open":
+                with open(fn, "r") as f:
+                    return NeurolucidaAscToSwc.from_stream(f)
+            return NeurolucidaAscToSwc()(fn)
+
+        def store(fn, text):
+            with open(fn, "wb") as f:
+                f.write(with_eol(text, case.get("eol", "lf"), case.get("eol_seed", 0)))
 
         via = case.get("via", "stream")
         if via in FILE_VIAS:
             tmp = tempfile.mkdtemp(prefix="c15_")
             try:
                 fn = os.path.join(tmp, "d.asc")
-                with open(fn, "wb") as f:
-                    f.write(with_eol(case["text"], case.get("eol", "lf"), case.get("eol_seed", 0)))
-                if via == "convert":
-                    t = NeurolucidaAscToSwc.convert(fn)
-                elif via == "open":
-                    with open(fn, "r") as f:
-                        t = NeurolucidaAscToSwc.from_stream(f)
-                else:
-                    t = NeurolucidaAscToSwc()(fn)
+                if "between" in case:                      # the path is converted, something happens, the path is converted again
+                    between = case["between"]
+                    store(fn, case.get("text_before", case["text"]))
+                    t0 = through(case["first_via"], fn)
+                    first = table_of(t0)
+                    if between in EDITS:
+                        apply_edit(t0.ndata, between, case["edit_seed"])
+                    elif between.startswith("rewritten"):
+                        st = os.stat(fn)
+                        store(fn, case["text"])
+                        if between == "rewritten-same-stat":
+                            os.utime(fn, ns=(st.st_atime_ns, st.st_mtime_ns))
+                    res = table_of(through(via, fn))
+                    res["first"] = first
+                    return res
+                store(fn, case["text"])
+                t = through(via, fn)
             finally:
                 shutil.rmtree(tmp, ignore_errors=True)
         else:
             t = NeurolucidaAscToSwc.from_stream(io.StringIO(case["text"]))
-        n = t.number_of_nodes()
-        return {"n": n, "id": t.id().tolist(), "pid": t.pid().tolist(), "type": t.type().tolist(),
-                "xyzr": np.stack([t.x(), t.y(), t.z(), t.r()], axis=1).astype(float).tolist() if n else []}
+        return table_of(t)
 
     def lines(self, case, res):
         if "exc" in res:
@@ -614,6 +737,22 @@ class Convert(Suite):
             short = f"[file with {case.get('eol', 'lf').upper()} line ends, through {how}] " + short
         if not isinstance(res, dict) or "exc" not in res and not all(k in res for k in ("n", "id", "pid", "type", "xyzr")):
             return [("asc-malformed-output", f"{case['class']}: no table came back: {str(res)[:300]}")]
+        if "between" in case and "exc" not in res:
+            what = {"nothing": "nothing happened in between", "rewritten": "the file was rewritten with another document in between",
+                    "rewritten-same-stat": "the file was rewritten with another document of the same length and its time stamp restored in between"}.get(
+                        case["between"], f"the caller edited the tree returned by the earlier conversion in place in between ({case['between']})")
+            f_how = {"file": "NeurolucidaAscToSwc()(fname)", "convert": "NeurolucidaAscToSwc.convert(fname)", "open": "from_stream(open(fname))"}[case["first_via"]]
+            first = res.get("first")
+            if not isinstance(first, dict) or not all(k in first for k in ("n", "id", "pid", "type", "xyzr")):
+                return [("asc-malformed-output", f"{case['class']}: no table came back from the first conversion: {str(first)[:300]}")]
+            before = case.get("text_before", case["text"])
+            bad = self._compare(case.get("rows_before", want), first, case, f"[first conversion, through {f_how}] " + repr(before[:300]))
+            if bad:
+                return bad
+            bad = self._compare(want, res, case, short)
+            if bad:                                                     # the first conversion of the path was faithful, the second is not
+                return [(f"asc-again/{bad[0][0]}", f"second conversion of the same path in one process (first through {f_how}; {what}): " + bad[0][1] + f": {short!r}")]
+            return []
         if case["class"].startswith("blocks/"):
             short = f"document of {len(case['text'])} characters, {sorted(case['across'])} across every multiple of {case['step']} characters: " + short
         if want is None:
@@ -623,6 +762,12 @@ class Convert(Suite):
         if "exc" in res:
             key = "asc-rejected/" + (case["class"].split("/")[1] if case["class"].startswith("named/") else case["class"].split("/")[0])
             return [(key, f"well-formed document rejected with {res['exc']}: {res.get('msg')}: {short!r}")]
+        return self._compare(want, res, case, short)
+
+    def _compare(self, want, res, case, short):
+        """the table `res` against the rows the document states"""
+        if not isinstance(res.get("n"), int):
+            return [("asc-malformed-output", f"{case['class']}: the number of nodes is {res.get('n')!r}: {short!r}")]
         if res["n"] != len(want):
             rep = f" ({case['repeats']} of the points repeat the point they are attached to)" if case.get("repeats") else ""
             return [("asc-node-count", f"{res['n']} nodes for {len(want)} points{rep}: {short!r}")]
